@@ -210,15 +210,51 @@ def _decorated(run, lib):
     def plain_wrapper(c, *rest, **kw):       # an `async def` below another decorator whose wrapper is a plain `def`
         return func(c, *rest, **kw)
 
+    class _Done:                             # an awaitable that is complete already
+        def __init__(self, value):
+            self.value = value
+
+        def __await__(self):
+            return self.value
+            yield
+
+    def eager(c, *rest, **kw):               # a plain `def` doing its work (or failing) when CALLED, if it need not suspend
+        co = func(c, *rest, **kw)
+        if calls[c]["bodySusp"]:
+            return co
+        try:
+            co.send(None)
+        except StopIteration as stop:
+            return _Done(stop.value)
+        raise AssertionError("unreachable: a body without suspensions finishes at once")
+
     # ONE manager object decorates SEVERAL callables (`traced = ctx(); @traced def f...; @traced def g...`): calls of any
     # of them must each get a fresh context, whichever is called first; the callables come in every awaitable-returning
     # flavour (the decorator must await what the call returns, whatever `iscoroutinefunction` says about the callable)
-    wrapped = (cm(func), cm(func2), cm(AsyncCallObj()), cm(plain_wrapper), cm(functools.partial(func2)))
+    wrapped = (cm(func), cm(eager), cm(AsyncCallObj()), cm(plain_wrapper), cm(functools.partial(func2)))
 
     def call(c, *rest, **kw):
         return wrapped[c % len(wrapped)](c, *rest, **kw)
 
+    call.cm = cm
     return call
+
+
+def _direct_use(run, cm):
+    """the manager object the decorators were made from is ALSO used once directly (`async with traced: ...`) - its single
+    legal direct use for a generator-based manager; the decorated callables must not notice (events logged apart)"""
+    async def use():
+        async with cm:
+            pass
+    saved, run.log, cur = run.log, [], run.cur
+    run.cur = 0
+    co = use()
+    try:
+        while True:
+            co.send(None)
+    except BaseException:  # noqa: B036 - whatever the scripted manager of call 0 does when used directly
+        pass
+    run.log, run.cur = saved, cur
 
 
 def _execute(case, lib, only=None):
@@ -229,8 +265,11 @@ def _execute(case, lib, only=None):
     coros = [func(c, "r", **dict(CALL_KW, kw=c)) for c in range(n)]
     done = [False] * n
     outs = []
-    for op in case["ops"]:
+    direct_at = case.get("direct_at") if lib == "impl" else None    # contextlib's managers forget their arguments when entered
+    for n_op, op in enumerate(case["ops"]):
         c = op[1]
+        if n_op == direct_at:
+            _direct_use(run, func.cm)
         if only is not None and c != only:
             continue
         if c >= n or done[c]:
@@ -673,6 +712,11 @@ def cases(tier, rng):
             yield _case("single", gb, [cfg], [["s", 0]] * k)
             for pos in range(k):
                 yield _case("single-cancel", gb, [cfg], [["s", 0]] * pos + [["x", 0, 100 + pos]])
+    # 1b. the manager object is also entered directly once, somewhere between the operations of the decorated calls
+    for _ in range(600 if thorough else 300):
+        case = sequential_case(rng) if rng.random() < 0.5 else random_case(rng)
+        if case["ops"]:
+            yield dict(case, kind=case["kind"] + "+direct", direct_at=rng.randrange(max(1, len(case["ops"]) // 2)))
     # 2. two concurrent calls: every interleaving over a covering set of behaviours
     for gb, size in ((True, 16 if thorough else 8), (False, 10 if thorough else 6)):
         for a in covering(gb, 0, size):
